@@ -90,6 +90,7 @@ type GenProgram struct {
 	Ast     bool
 	Inline  bool
 	Switch  bool
+	MemoCollision []string
 	lemmasDone  bool
 	LemmaFailed []string
 }
@@ -187,7 +188,7 @@ func (gp *GenProgram) setupSpec() {
 	if obj, ok := u.Pkg.Types.Scope().Lookup("token").(*types.TypeName); ok {
 		u.sortOf(obj.Type())
 	}
-	u.Prelude = append(u.Prelude, gp.Spec.Prelude(gp.Consts, gp.Ast), "(define-fun runeAtC ((i Int)) Int (select bufc i))")
+	u.Prelude = append(u.Prelude, gp.Spec.Prelude(gp.Consts, gp.Ast), "(define-fun runeAtC ((i Int)) Int (select bufc i))", gp.memoIDTable())
 	u.SpecConsts = map[string]Sort{"bufc": arr(SInt, SInt), "n": SInt, "maxU": SInt, "seq_empty": "TSeq"}
 	u.MaxUConst = true
 	decl := func(name, result string) {
@@ -202,6 +203,10 @@ func (gp *GenProgram) setupSpec() {
 	decl("snoc", "TSeq")
 	decl("tabs", "TSeq")
 	decl("runeAtC", "int")
+	decl("RULEOF", "int")
+	decl("seg2", "TSeg")
+	decl("cat", "TSeq")
+	decl("TOKS", "TSeg")
 	decl("TXT", "Str")
 	decl("LOG", "TLog")
 	decl("snocL", "TLog")
@@ -299,9 +304,22 @@ func (gp *GenProgram) setupSpec() {
 				fc.Ensures = keep
 			}
 		}
+		// the register clause of the memo invariant is dropped with it: the memoised replay of a -switch
+		// parser is only required to reproduce verdict, position and tokens
+		if fc := u.CS.Funcs["Init.memoize"]; fc != nil {
+			for _, rq := range fc.Requires {
+				if strings.Contains(rq.Text, "MX(") {
+					txt := strings.Replace(rq.Text, "&& MX(RULEOF(rule), begin, maxToken) == maxToken", "", 1)
+					if e, err := parseExpr(txt); err == nil {
+						rq.Text, rq.Expr = txt, e
+					}
+				}
+			}
+		}
 	}
 	u.OpaqueExternals = true
 	u.SkipSMT = true
+	u.OpaquePreds = map[string]bool{"MemoInv": true}
 	u.Provider = gp.provider
 	u.NoSplit = map[string]bool{"RT": true, "inputOK": true}
 }
@@ -315,6 +333,47 @@ func (gp *GenProgram) structName() string {
 	return ""
 }
 
+// memoKeyOf: the rule id literal used by a closure for its memo table lookups (nil if none).
+func memoKeyOf(u *Unit, body *ast.BlockStmt) *ast.BasicLit {
+	var lit *ast.BasicLit
+	ast.Inspect(body, func(n ast.Node) bool {
+		if lit != nil {
+			return false
+		}
+		if cl, ok := n.(*ast.CompositeLit); ok && len(cl.Elts) == 2 {
+			if t := u.Info.TypeOf(cl); t != nil && typeName(t) == "memoKey" {
+				if bl, ok := cl.Elts[0].(*ast.BasicLit); ok {
+					lit = bl
+				}
+			}
+		}
+		return true
+	})
+	return lit
+}
+
+// memoIDTable defines RULEOF: memo key id -> rule constant, read off the generated closures. Two
+// closures using the same id would share memo entries: that is reported as a failed unit obligation.
+func (gp *GenProgram) memoIDTable() string {
+	u := gp.Unit
+	body := "0"
+	seen := map[string]int{}
+	for _, key := range sortedKeys(u.Funcs) {
+		var c int
+		if _, err := fmt.Sscanf(key, "Init.$rules%d", &c); err != nil {
+			continue
+		}
+		if lit := memoKeyOf(u, u.Funcs[key].Body); lit != nil {
+			if prev, dup := seen[lit.Value]; dup && prev != c {
+				gp.MemoCollision = append(gp.MemoCollision, fmt.Sprintf("memo id %s is used by rules %d and %d", lit.Value, prev, c))
+			}
+			seen[lit.Value] = c
+			body = fmt.Sprintf("(ite (= id %s) %d %s)", lit.Value, c, body)
+		}
+	}
+	return "(define-fun RULEOF ((id Int)) Int " + body + ")"
+}
+
 // provider resolves calls of rule closures: _rules[ruleX]() and p.rules[r]().
 func (gp *GenProgram) provider(fv *FV, call *ast.CallExpr, cx *Cx) *CalleeSpec {
 	ix, ok := unparen(call.Fun).(*ast.IndexExpr)
@@ -326,6 +385,9 @@ func (gp *GenProgram) provider(fv *FV, call *ast.CallExpr, cx *Cx) *CalleeSpec {
 				if fi != nil {
 					cs := fv.specForFunc(fi)
 					cs.ExtraEnv = map[string]TV{"r": r}
+					if lit := memoKeyOf(fv.u, fv.fn.Body); lit != nil {
+						cs.ExtraEnv["kid"] = TV{T: lit.Value, Ty: tInt, S: SInt}
+					}
 					return cs
 				}
 			}
@@ -609,6 +671,10 @@ func (gp *GenProgram) verifyClosures(r *Run, only map[string]bool) {
 			add(pr.Body)
 		}
 		gp.runClosure(r, key, fc, c, fname, extra+gp.lemmaAxioms(pr))
+	}
+	for _, mc := range gp.MemoCollision {
+		r.Obls = append(r.Obls, &Obligation{Name: u.Name + "#unit.memoids", Kind: "unit", Unit: u.Name, Goal: "false", PC: "true", Props: "C06",
+			Detail: mc, Result: SolverResult{Verdict: VUnknown, Output: mc}})
 	}
 	r.Programs++
 	for a := range u.Assumptions {
